@@ -38,7 +38,8 @@ RULE = ("L1 (differential CLI runs): regenerable scenarios (kind, seed) -> input
         "without --ignore-sample-name), split, unphase. 'polyploid': tri/tetraploid samples, several read islands, "
         "polyphase --threads 1..4. Targeted inputs for the order dependences suspected from reading (F7): "
         "'shared-barcode' (two samples sharing a BX barcode), 'linked-stress' (read clouds whose phase set is a tie), "
-        "'undeclared-info' (INFO keys missing from the VCF header). Each job runs under >= 5 configurations "
+        "'undeclared-info' (INFO keys missing from the VCF header), 'ped-changes' (trio with wrong genotypes in all members, "
+        "--distrust-genotypes with and without --use-ped-samples). Each job runs under >= 5 configurations "
         "(hash seeds 0,1,2,3,random; thread counts 1..4; one exact repetition of the baseline); every output file is "
         "canonicalised (command-line header removed) and all runs must give the same record list. One case = one "
         "(scenario, job, output file); non-trivial = all runs exited 0 and the output has data records; distinct = "
@@ -191,6 +192,8 @@ def scenario_plan(ctx):
         plan.append(("shared-barcode", rng.randrange(10 ** 9), {"nsamples": 2 if k == 0 else rng.choice([2, 3, 4])}))
     for k in range(ctx.n(1, 3)):
         plan.append(("linked-stress", rng.randrange(10 ** 9), {"groups": 300, "group_size": 4}))
+    for k in range(ctx.n(1, 3)):
+        plan.append(("ped-changes", rng.randrange(10 ** 9), {}))
     for k in range(ctx.n(1, 3)):
         plan.append(("undeclared-info", rng.randrange(10 ** 9),
                      {"info": ["AC=1;AN=2;SVTYPE=X;SVLEN=1", "AC=1;AN=2", "SVLEN=1;AN=2;END=9999"][k % 3]}))
